@@ -162,10 +162,10 @@ Definition expire_with_option (key : string) (t : Z) (opt : string) (cur : optio
   if String.eqb o "nx" then match cur with Some _ => Ret (RInt 0) | None => set end
   else if String.eqb o "xx" then match cur with None => Ret (RInt 0) | Some _ => set end
   else if String.eqb o "gt" then
-    match cur with None => Ret (RInt 0) | Some c => if t <? c then Ret (RInt 0) else set end
+    match cur with None => Ret (RInt 0) | Some c => if t <=? c then Ret (RInt 0) else set end
   else if String.eqb o "lt" then
     match cur with
-    | Some c => if c <? t then Ret (RInt 0) else SetExpiry key (Some t) false set
+    | Some c => if c <=? t then Ret (RInt 0) else SetExpiry key (Some t) false set
     | None => set
     end
   else Ret RErr.
